@@ -254,7 +254,7 @@ func (g *G) U32() uint32 {
 		v = uint32(1 + t.Uint(1<<32-1))
 	default:
 		v = uint32(1 + t.Uint(1<<32-1))
-		if t.Bool(1, 6) {
+		if t.Bool(1, 4) {
 			// only high bits set: zero after a narrowing conversion to 16 or 8 bits
 			v = uint32(1+t.Int(65535)) << 16
 			if t.Bool(1, 3) {
